@@ -19,6 +19,7 @@ CONSTANTS
   MaxClk = 13
   OldPopOrder = TRUE
   OldTimeCharge = FALSE
+  OldThrInherit = FALSE
   NCo = 0
   XFlags = {}
   MaxDepth = 3
